@@ -75,7 +75,7 @@ func updRun(quick, thorough map[string]int) runSpec {
 
 // vcRuns are the H-VC harnesses: the real merkle verifier against the algebra, tlog.CheckTree and tlog.ProveTree.
 func vcRuns() []runSpec {
-	q, t := p("n", 8, "vc_inline", 1), p("n", 32, "vc_inline", 1)
+	q, t := p("n", 8, "vc_inline", 1), p("n", 48, "vc_inline", 1)
 	return []runSpec{
 		{Harness: pkgWitness + ".VerifVCSound", Quick: q, Thorough: t, Covers: []string{"vc/accepts-growth", "vc/accepts-equal", "vc/rejects"}},
 		{Harness: pkgWitness + ".VerifVCAgree", Quick: q, Thorough: t, Covers: []string{"vc/both-accept", "vc/both-reject"}},
@@ -96,6 +96,10 @@ func init() {
 	for _, id := range []string{"C01", "C02", "C03", "C04", "C09", "C12", "C20"} {
 		reg(&checkSpec{ID: id, Runs: []runSpec{updRun(updQ, updT), updRun(updQs, updTs)}, Assumptions: commonAssumptions})
 	}
+	// the real consistency verifier itself (H-VC): soundness for C01, agreement with tlog.CheckTree for C09
+	vr := vcRuns()
+	checks["C01"].Runs = append(checks["C01"].Runs, vr[0], vr[2])
+	checks["C09"].Runs = append(checks["C09"].Runs, vr[1], vr[2])
 	// histories of length two on one witness instance (in-process state between calls)
 	twoCovers := []string{"two/both-accepted-different-logs", "two/both-accepted-same-log", "two/same-bytes-replayed-to-another-log"}
 	for _, id := range []string{"C01", "C02", "C03", "C04", "C12"} {
